@@ -253,7 +253,19 @@ func (m *SetMon[T]) Step() {
 	case 1:
 		m.Remove(m.args(true)...)
 	case 2:
-		m.ContainsList(m.args(true))
+		if m.n() > 0 && m.c.R.Intn(3) == 0 {
+			// members only, some of them named more than once (the answer is true)
+			k := []int{2, 3, 5, 16, 17, 21, 33, 64}[m.c.R.Intn(8)]
+			vs := make([]T, k)
+			for i := range vs {
+				vs[i] = m.Model[m.c.R.Intn(m.n())]
+			}
+			shapeBatch(m.c.R, vs, m.order())
+			m.ContainsList(vs)
+			m.c.Count("obs:Contains-members-with-repeats", 1)
+		} else {
+			m.ContainsList(m.args(true))
+		}
 	default:
 		if m.c.R.Chance(1, 3) && len(m.D.Alpha) < 1000 { // (a Clear every ~75 calls would keep a big set small for ever)
 			m.Clear()
@@ -390,6 +402,10 @@ func runManyClears(c *core.Ctx, kind int) {
 
 func runC04(c *core.Ctx) {
 	i := c.Index
+	if i < 4 {
+		runHugeHash(c, 3+i%2) // HashSet, LinkedHashSet beyond 4096 members
+		return
+	}
 	c.SetGaps(i%2 == 1)
 	if i%1009 >= 500 && i%1009 < 503 {
 		c.SetGaps(false)
@@ -434,6 +450,8 @@ func init() {
 				f.atLeast("call:"+s+".Clear", 50)
 			}
 			f.atLeast("obs:Values", 100000)
+			f.atLeast("obs:huge-hash-cases", 4)
+			f.atLeast("obs:Contains-members-with-repeats", 10000)
 			f.atLeast("ctor:builtin-comparator", 500)
 			f.atLeast("obs:bulk-constructor-load", 1000)
 			f.atLeast("obs:bulk-add-into-empty", 1000)
